@@ -352,7 +352,7 @@ func (famLogq) Exec(scn int, raw json.RawMessage, t *Trace, opt map[string]strin
 // random driver
 
 var lqWords = []string{"a", "ab", "b", "ba", "abc", "x", "", "a b", "err", "warn", "a=b"}
-var lqNums = []string{"0", "1", "5", "5.5", "10", "42", "007", "3.14", "100"}
+var lqNums = []string{"0", "1", "5", "5.5", "10", "42", "007", "3.14", "100", "010", "0100", "00120"} // zero-padded: decimal all the same
 var lqDurs = []string{"1s", "500ms", "2s", "1m", "1m30s", "1.5s", "1h", "90s"}
 var lqBytes = []string{"1B", "5B", "1KB", "1KiB", "2kb", "1MB", "999B", "10b", "1MiB"} // always with a unit: a bare number is a number literal
 var lqGarbage = []string{"x", "abc", "zz9", "", "q1"}
@@ -605,6 +605,20 @@ func genLogq(r *rand.Rand, mode string) logqIn {
 	in.Caps = []CapsIn{{Label: []string{}, Line: []string{}}, {Label: allOps, Line: allOps}, {Label: randSubset(r), Line: randSubset(r)}}
 	if mode == "select" && r.Intn(8) == 0 {
 		genIPCase(r, &in)
+	} else if mode == "select" && r.Intn(10) == 0 {
+		// zero-padded numbers in label values against thresholds that tell decimal from octal reading
+		for i := range in.Recs {
+			v := pick(r, []string{"010", "0100", "00120", "08", "10", "017", "0", "00"})
+			in.Recs[i].Line, in.Recs[i].Doc = B("n="+v), [][2][]int{{B("n"), B(v)}}
+		}
+		lit := pick(r, []string{"9", "10", "64", "100", "8", "80", "120", "15", "17"})
+		in.Stages = []stageIn{{T: "logfmt"}, {T: "label", Pred: &predIn{T: "num", Label: B("n"), Op: []string{"eq", "neq", "gt", "gte", "lt", "lte"}[r.Intn(6)], Lit: B(lit), Val: ratOfDecimal(lit)}}}
+		if r.Intn(2) == 0 {
+			in.Stages = in.Stages[1:]
+			for i := range in.Recs {
+				in.Recs[i].Attrs = [][2][]int{{B("n"), in.Recs[i].Doc[0][1]}}
+			}
+		}
 	}
 	if mode == "limit" {
 		in.Recs = genRecs(r, n, r.Intn(2) == 0)
